@@ -943,3 +943,103 @@ def replay_dict_builder(w):
     except Exception as ex:
         return {'reproduced': None, 'how': {'note': 'native replay unavailable: %s' % ex}}
     return {'reproduced': True if line.startswith('REPLAY panic') else (False if line.startswith('REPLAY ok') else None), 'how': {'native': line[:300]}}
+
+
+# ------------------------------------------------------------------------------------------------ dictionary block *iterator*
+@crate_contract(r'^<rle_block_iterator::RleBlockIterator<primitive_array::PrimitiveArray<i32>, primitive_block_iterator::PlainPrimitiveBlockIterator<i32>> as block::BlockIterator<primitive_array::PrimitiveArray<i32>>>::next_batch$',
+                'the code column of a dictionary block: RleBlockIterator<I32Array, _>::next_batch appends the next codes (never NULL) and returns their number (the RLE iterator itself is decided separately)')
+def _dict_rle_next(vm, m, callee, args):
+    b = _builder(vm, args[2])
+    codes = _DICT['read_codes']
+    for c in codes:
+        b.fields[0].bits.append(BoolVal(True))
+        b.fields[1].items.append(BV(c, True))
+    return mk_int(len(codes), 'usize')
+
+
+@crate_contract(r'^std::collections::HashMap::<i32, <<A as array::Array>::Item as ToOwned>::Owned>::get::<i32>$', 'HashMap::<i32, item>::get(code): the entry stored under that code (one fork per entry), None otherwise')
+def _dict_get_code(vm, m, callee, args):
+    from .vm import NativeFork
+    from z3 import And
+    h = dv(vm, args[0])
+    k = dv(vm, args[1]).v
+    entries = h.data['entries']
+    alts = [(kj == k, (lambda m2, a2, vj=vj: Enum('Option', 'Some', [Ref(Cell(vj))]))) for kj, vj in entries]
+    alts.append((And([kj != k for kj, _ in entries]) if entries else BoolVal(True), lambda m2, a2: Enum('Option', 'None')))
+    raise NativeFork(alts)
+
+
+def run_dict_iterator(rep, thorough):
+    """DictBlockIterator::next_batch from MIR: the code column yields K arbitrary codes, the dictionary holds D entries
+    under the codes i32::MIN + 1 ..; the values pushed to the array builder are NULL for the code i32::MIN and entry
+    code - (i32::MIN + 1) otherwise (codes outside the dictionary -- a damaged block -- are outside the claim)."""
+    from z3 import Or, And, Not, BitVecVal
+    t0 = time.time()
+    try:
+        vm = make_vm(True)
+        f_next = find_fn(vm.prog, r'^dict_block_iterator::<impl at src/storage/secondary/block/dict_block_iterator\.rs:\d+:\d+: \d+:\d+>::next_batch$')
+    except (Inconclusive, Unsupported, MirSyntax) as ex:
+        rep.fail_inconclusive('DictBlockIterator: %s' % ex)
+        return
+    MIN = -(1 << 31)
+    n_ob = 0
+    for D in ((1, 2, 3) if thorough else (1, 2)):
+        for K in ((1, 2, 3) if thorough else (1, 2)):
+            desc = 'DictBlockIterator::next_batch: %d codes over a dictionary of %d entries' % (K, D)
+            codes = [BitVec('code%d' % i, 32) for i in range(K)]
+            entries = [(BitVecVal(MIN + 1 + j, 32), BV(BitVec('entry%d' % j, 32), True)) for j in range(D)]
+            in_dict = [Or([c == BitVecVal(MIN, 32)] + [c == e for e, _ in entries]) for c in codes]
+            _DICT['read_codes'] = codes
+            it = Struct('DictBlockIterator', [Opaque('rle-iter'), Opaque('dict', {'entries': entries}), Opaque('phantom')])
+            out_b = Ref(Cell(Struct('PrimitiveArrayBuilder', [Bits([]), Seq([])])))
+            try:
+                outs = vm.run(f_next, [Ref(Cell(it)), Enum('Option', 'None'), out_b], pc=tuple(in_dict))
+            except (Unsupported, MirSyntax, KeyError, IndexError, AttributeError, TypeError) as ex:
+                rep.fail_inconclusive('%s: %s: %s' % (desc, type(ex).__name__, str(ex)[:300]))
+                continue
+            rep.cov['programs'] += 1
+            for o in outs:
+                n_ob += 1
+                if o.kind != 'ret':
+                    stv, m = satisfiable(list(o.pc))
+                    if stv == 'unsat':
+                        rep.obligation(True)
+                        continue
+                    out = rep.counterexample('dict-iterator:panics', '%s panics (%s)' % (desc, o.value), {'desc': desc}, None)
+                    rep.obligation(out == 'known')
+                    continue
+                bld = vm.deref_value(o.args[2])
+                gv, gd = vm.deref_value(bld.fields[0]), vm.deref_value(bld.fields[1])
+                if concrete_int(o.value) != K or len(gv.bits) != K:
+                    claim = BoolVal(False)
+                else:
+                    cl = []
+                    for i, c in enumerate(codes):
+                        is_null = c == BitVecVal(MIN, 32)
+                        val = vm.deref_value(gd.items[i]).v
+                        cl.append(And(bool_(gv.bits[i]) == Not(is_null), Or(is_null, Or([And(c == e, val == x.v) for e, x in entries]))))
+                    claim = And(cl)
+                stv, m = check(list(o.pc), claim)
+                if stv == 'unsat':
+                    rep.obligation(True)
+                    rep.sample({'obligation': desc, 'verdict': 'every code decodes to NULL (i32::MIN) or its dictionary entry'}, cap=3)
+                    continue
+                if stv == 'unknown':
+                    rep.obligation(False)
+                    rep.fail_inconclusive('solver unknown: ' + desc)
+                    continue
+                w = {'codes': [m.eval(c, model_completion=True).as_signed_long() - MIN for c in codes], 'dictionary_size': D}
+                # replay: a value sequence whose dictionary codes are the witness codes (0 = NULL, j = j-th distinct value)
+                seq = [None if c == 0 else c for c in w['codes']]
+                first_seen = []
+                for c in seq:
+                    if c is not None and c not in first_seen:
+                        first_seen.append(c)
+                rp = replay_dict_builder({'values': [None if c is None else 100 + c for c in sorted(first_seen)] + [None if c is None else 100 + c for c in seq]})
+                what = '%s: codes (offset from i32::MIN) %s are not decoded to NULL / their entries; end to end: %s' % (desc, w['codes'], json.dumps(rp['how'])[:200])
+                out = rep.counterexample('dict-iterator:decode', what[:500], {'witness': w, 'replay': rp}, rp['reproduced'])
+                rep.obligation(out == 'known')
+    rep.solver(time.time() - t0, n_ob)
+    rep.cov['functions_encoded'] = list(rep.cov.get('functions_encoded', [])) + ['DictBlockIterator::next_batch (from MIR)']
+    if isinstance(rep.cov.get('bounds'), dict):
+        rep.cov['bounds']['dictionary block iterator'] = 'batches of 1-%d codes over dictionaries of 1-%d entries; codes symbolic within the dictionary or NULL' % ((3, 3) if thorough else (2, 2))
